@@ -32,6 +32,13 @@ namespace igris
         return outvec;
     }
 
+    // strchr() also finds the terminator of the set: a NUL byte in the text
+    // is not a delimiter
+    static inline bool split_is_delim(const char *delims, char c)
+    {
+        return c != '\0' && strchr(delims, c) != NULL;
+    }
+
     std::vector<std::string> split(const igris::buffer &str, const char *delims)
     {
         std::vector<std::string> outvec;
@@ -46,7 +53,7 @@ namespace igris
         while (true)
         {
             // Skip delimiters
-            while (ptr != end && strchr(delims, *ptr) != NULL)
+            while (ptr != end && split_is_delim(delims, *ptr))
                 ptr++;
 
             if (ptr == end)
@@ -54,7 +61,7 @@ namespace igris
 
             strt = ptr;
 
-            while (ptr != end && strchr(delims, *ptr) == NULL)
+            while (ptr != end && !split_is_delim(delims, *ptr))
                 ptr++;
 
             outvec.emplace_back(strt, ptr - strt);
